@@ -3,6 +3,8 @@ package gdbi
 import (
 	"context"
 	"time"
+
+	"github.com/bmeg/grip/verifhook"
 )
 
 type RetrievedData struct {
@@ -32,6 +34,7 @@ func DualProcessor(ctx context.Context, reqChan chan ElementLookup, load bool, l
 				data <- RetrievedData{Req: r}
 			} else {
 				for out := range loader(r, load) {
+					verifhook.Point("dual.load")
 					data <- RetrievedData{
 						Req:  r,
 						Data: out,
@@ -49,6 +52,7 @@ func DualProcessor(ctx context.Context, reqChan chan ElementLookup, load bool, l
 				out <- d.Req
 			} else {
 				o := deserializer(d.Req, d.Data)
+				verifhook.Point("dual.deserialize")
 				out <- o
 			}
 		}
@@ -77,6 +81,7 @@ func LookupBatcher(req chan ElementLookup, batchSize int, timeout time.Duration)
 			default:
 				time.Sleep(timeout / 4)
 			}
+			verifhook.Point("batcher.loop")
 			if len(o) > 0 {
 				if len(o) >= batchSize || time.Since(last) > timeout {
 					out <- o
